@@ -697,6 +697,24 @@ Proof.
   destruct (validate_backend_args (mixed_config b s v e)); cbn in H; try discriminate.
   destruct v; [discriminate|]. apply outcome_ok_supported, H.
 Qed.
+Lemma pop_ok_supported : forall b s v fp e, pop_outcome b s v fp e = Ok -> Supported (mixed_config b s v e).
+Proof.
+  intros b s v fp e H. unfold pop_outcome in H.
+  destruct (validate_backend_args (mixed_config b s v e)); cbn in H; try discriminate.
+  destruct (backend_eqb b BFortran); [discriminate|]. apply accepts_iff_supported, H.
+Qed.
+Lemma accepts_not_warn : forall c, accepts c <> Warn.
+Proof.
+  intros c. unfold accepts, validate_backend_args, delay_buffer_check, validate_solver, sparse_check.
+  destruct (vec c && _); cbn; [discriminate|]. destruct (uses_edge_delay_buffer c && _); cbn; [discriminate|].
+  destruct (en c); [destruct (existsb _ _) | | destruct (sparse c && _)]; discriminate.
+Qed.
+Lemma pop_not_warn : forall b s v fp e, pop_outcome b s v fp e <> Warn.
+Proof.
+  intros b s v fp e H. unfold pop_outcome in H.
+  unfold validate_backend_args in H. destruct (vec _ && _); cbn in H; [discriminate|].
+  destruct (backend_eqb b BFortran); [discriminate|]. exact (accepts_not_warn _ H).
+Qed.
 Lemma mixed_not_warn : forall b s v fp e, mixed_outcome b s v fp e <> Warn.
 Proof.
   intros b s v fp e H. unfold mixed_outcome in H.
@@ -772,6 +790,7 @@ Proof.
   destruct p; cbn [impl WellFormed WFprobe] in *.
   - apply outcome_ok_supported, H.
   - apply (mixed_ok_supported b s v first_plain e), H.
+  - apply (pop_ok_supported b s v first_plain e), H.
   - apply check_vname_ok_iff, H.
   - apply scan_vars_ok_iff, H.
   - apply check_equation_ok_iff, H.
@@ -791,6 +810,7 @@ Proof.
   intros p H. destruct p; cbn [impl] in *; try reflexivity.
   - exfalso. exact (outcome_not_warn c H).
   - exfalso. exact (mixed_not_warn _ _ _ _ _ H).
+  - exfalso. exact (pop_not_warn _ _ _ _ _ H).
   - destruct (check_vname_cases v) as [X | X]; congruence.
   - destruct (scan_vars_err_class vars false) as [X | X]; congruence.
   - unfold check_equation in H. destruct (forallb _ _); discriminate.
@@ -824,6 +844,7 @@ Qed.
 Theorem wellformedb_iff : forall p, WFprobe p -> (wellformedb p = true <-> WellFormed p).
 Proof.
   intros p W. destruct p; cbn [wellformedb WellFormed WFprobe] in *.
+  - apply supportedb_iff.
   - apply supportedb_iff.
   - apply supportedb_iff.
   - rewrite is_ok_iff. apply check_vname_ok_iff.
